@@ -358,8 +358,16 @@ func oracleWrite(st step, r response, hdr string, ref *etagRec, pre *response, p
 		return
 	}
 	accepted := r.status == 200
+	if st.path == "/adapt" {
+		// adapting is a pure function of the request
+		if cur.cfgEnc != prev.cfgEnc || cur.ids != prev.ids || cur.loads != prev.loads || cur.saw != prev.saw {
+			fail(fails, "adapt-changed-state", "%s /adapt answered %d and the configuration, the id index or the running apps changed", methodName[st.m], r.status)
+		}
+		return
+	}
 	// ---- If-Match: a conditional write succeeds only if the value is unchanged
-	if ref != nil && pre != nil && (pre.status == 200 || pre.status == 400) {
+	// (/load does not take part: caddy.Load passes no If-Match to changeConfig)
+	if ref != nil && pre != nil && (pre.status == 200 || pre.status == 400) && st.path != "/load" {
 		unchanged := pre.status == 200 && bytes.Equal(pre.body, ref.body)
 		if accepted && !unchanged {
 			fail(fails, "if-match-stale-write-accepted", "%s %s with If-Match %s was accepted although the value changed since the ETag was issued (then %q, now %q)",
@@ -389,6 +397,20 @@ func oracleWrite(st step, r response, hdr string, ref *etagRec, pre *response, p
 	}
 	if st.m == "H" {
 		return
+	}
+	if st.path == "/load" {
+		// replaces the entire configuration with the (adapted) body
+		var want any
+		if st.hasVal {
+			want = st.tree
+		}
+		if st.ct == 'w' {
+			want = map[string]any{"apps": map[string]any{"c12": want}}
+		}
+		if _, isArr := prev.cfg.([]any); !isArr && !deepEqual(want, cur.cfg) {
+			fail(fails, "load-wrong-effect", "POST /load %s answered 200 but GET /config/ gives %s", jsonText(want), jsonText(cur.cfg))
+		}
+		tags["load:accepted"] = true
 	}
 	// ---- documented effect at the path and nowhere else
 	root := rootOf(prev.cfg)
